@@ -466,7 +466,7 @@ func (e *engine) mergeDelta() error {
 		}
 		queryExisting := ast.Atom{pred, queryArgs}
 		existing := false
-		e.store.GetFacts(queryExisting, func(existingFact ast.Atom) error {
+		err := e.store.GetFacts(queryExisting, func(existingFact ast.Atom) error {
 			existing = true
 			if fact.Equals(existingFact) {
 				return nil // nothing to do.
@@ -506,6 +506,9 @@ func (e *engine) mergeDelta() error {
 			}
 			return nil
 		})
+		if err != nil {
+			return err
+		}
 		if !existing {
 			e.store.Add(fact)
 		}
